@@ -9,7 +9,7 @@ from common import Check, coq_z, coq_list
 
 IMPLS = ["array", "linked", "cow", "conc-array", "conc-linked", "conc-cow"]
 CAPS = [0, 1, 5, 64, 65, 130, 2049, 5000]
-KIND = {"b": "Append", "n": "NewOf", "g": "Get", "a": "Append", "i": "Add", "s": "Set", "d": "Delete", "l": "Len", "c": "Cap",
+KIND = {"N": "NewArrayListOf", "b": "Append", "n": "NewOf", "g": "Get", "a": "Append", "i": "Add", "s": "Set", "d": "Delete", "l": "Len", "c": "Cap",
         "r": "Range", "v": "AsSlice"}
 
 
@@ -254,7 +254,7 @@ def gen_histories(c):
     r = random.Random(c.seed * 1000003 + 4)
     full = c.tier == "thorough"
     st = c.cov.setdefault("distribution", {})
-    for k in ["idx_valid", "idx_invalid", "drains_to_empty", "hist_random", "hist_drain", "hist_regression", "hist_sparse", "hist_argument",
+    for k in ["idx_valid", "idx_invalid", "drains_to_empty", "hist_random", "hist_drain", "hist_regression", "hist_sparse", "hist_argument", "hist_shared_ctor",
               "ops_unobserved", "ops_observed_in_sparse", "bursts"] + \
              ["op_" + v for v in KIND.values()]:
         st[k] = 0
@@ -279,6 +279,22 @@ def gen_histories(c):
         g.emit("v")
         hs.append((im, cap0, g.ops))
         st["hist_argument"] += 1
+    # NewArrayListOf(ts): the list shares ts (documented); every op observed, incl. the sharing probe
+    for k in range(2000 if full else 70):
+        im = ["array", "conc-array"][k % 2]
+        cap0 = [0, 1, 5, 64, 65, 130, 0, 70][(k // 2) % 8]
+        g = Gen(r, st)
+        xs = [g.val() for _ in range(r.choice([1, 2, 3, 6, 20, 66, 70]))]
+        g.seq += xs
+        g.emit("N:" + ",".join(map(str, xs)))
+        for _ in range(r.randint(3, 30)):
+            if r.random() < 0.1:
+                g.drain()
+                g.append(r.choice([1, 3, 40]))
+            else:
+                g.random_op()
+        hs.append((im, cap0, g.ops))
+        st["hist_shared_ctor"] += 1
     n_random = 40000 if full else 560
     for k in range(n_random):
         im = IMPLS[k % len(IMPLS)] if r.random() < 0.8 else r.choice(IMPLS[:3])
@@ -346,20 +362,27 @@ def hist_line(h, caps=None):
 
 
 def split_impl(line):
-    """implementation line -> (compared entries, caps, flags); flag "1" = fine, "0" = a slice returned by AsSlice
-    is aliased, "A" = an argument slice of Append / New...Of (or a second list fed from it) is aliased"""
-    ent, caps, fresh = [], [], []
+    """implementation line -> (compared entries, caps, flags, sharing); flag "1" = fine, "0" = a slice returned by
+    AsSlice is aliased, "A" = an argument slice of Append / New...Of (or a second list fed from it) is aliased,
+    "C0"/"CP" = a slice published earlier by a CopyOnWriteArrayList changed / a mutator re-published the same array;
+    sharing = S/U/?/- (does a list made by NewArrayListOf(ts) still live in ts's array)"""
+    ent, caps, fresh, sh = [], [], [], []
     for e in line.split(";") if line else []:
         p = e.split("|")
         if len(p) >= 5:
             ent.append("|".join(p[:3]))
             caps.append(p[3] if re.fullmatch(r"-?\d+", p[3]) else "-")
-            fresh.append("A" if len(p) > 5 and p[5] != "1" else p[4])
+            f = "A" if len(p) > 5 and p[5] != "1" else p[4]
+            if f == "1" and len(p) > 6 and p[6] in ("0", "P"):
+                f = "C" + p[6]
+            fresh.append(f)
+            sh.append(p[7] if len(p) > 7 else "-")
         else:
             ent.append(e)          # "panic" or an observation that panicked
             caps.append("-")
             fresh.append("1")
-    return ent, caps, fresh
+            sh.append("-")
+    return ent, caps, fresh, sh
 
 
 def split_model(line):
@@ -389,8 +412,8 @@ class Runner:
         rc, impl_lines, err = self.c.run_impl(self.binary, ["c04"], text)
         res = []
         for i, h in enumerate(hs):
-            ent, caps, fresh = split_impl(impl_lines[i] if i < len(impl_lines) else "<missing>")
-            res.append({"impl": ent, "caps": caps, "fresh": fresh, "spec_only": max_len_bound(h) > BIG})
+            ent, caps, fresh, sh = split_impl(impl_lines[i] if i < len(impl_lines) else "<missing>")
+            res.append({"impl": ent, "caps": caps, "fresh": fresh, "sh": sh, "spec_only": max_len_bound(h) > BIG})
         lines = [hist_line(h, res[i]["caps"]) for i, h in enumerate(hs)]
         small = [i for i in range(len(hs)) if not res[i]["spec_only"]]
         mlines = self.c.run_model("list", "\n".join(lines[i] for i in small) + "\n") if small else []
@@ -416,7 +439,7 @@ def max_len_bound(h):
     n = 0
     for o in h[2]:
         o = bare(o)
-        if o[0] in "abn":
+        if o[0] in "abnN":
             n += o.count(",") + 1 if len(o) > 2 else 0
         elif o[0] == "i":
             n += 1
@@ -448,6 +471,10 @@ def classify(h, k, impl, ref, fresh):
     if x == "<missing>" or y == "<missing>" or "panic" in y.split("|"):
         return "stream"
     px, py = x.split("|"), y.split("|")
+    if k < len(fresh) and fresh[k].startswith("C"):
+        return "cow-snapshot-changed" if fresh[k] == "C0" else "cow-mutator-did-not-copy"
+    if len(px) > 2 and px[2].startswith("A:"):
+        return "asslice-aliased"       # AsSlice returned the list's own backing array (pointer identity)
     if (k < len(fresh) and fresh[k] == "A") or re.search(r"-[34]0000\d\d", x):
         return "argument-aliased"      # the list shares memory with a slice the caller passed to Append / New...Of
     if (k < len(fresh) and fresh[k] != "1") or re.search(r"-[12]0000\d\d", x):
@@ -506,7 +533,7 @@ def minimise(runner, h, budget=40):
     for _ in range(12):
         cands = []
         for j, o in enumerate(ops):
-            if bare(o)[:2] in ("a:", "b:", "n:") and o.count(",") >= 1:
+            if bare(o)[:2] in ("a:", "b:", "n:", "N:") and o.count(",") >= 1:
                 pre = ("~" if o.startswith("~") else "") + bare(o)[:2]
                 xs = bare(o)[2:].split(",")
                 for keep in (xs[:len(xs) // 2], xs[len(xs) // 2:]):
@@ -561,7 +588,7 @@ def op_to_coq(o):
     p = bare(o).split(":")
     if p[0] == "g":
         return "OpGet %s" % coq_z(p[1])
-    if p[0] in "abn":
+    if p[0] in "abnN":
         return "OpAppend %s" % zs(p[1] if len(p) > 1 else "")
     if p[0] == "i":
         return "OpAdd %s %s" % (coq_z(p[1]), coq_z(p[2]))
@@ -645,11 +672,59 @@ def crosscheck(c, hs, results):
                  {"kind": "extraction-crosscheck", "coq_output": out[-1500:]}, found_input=False)
 
 
+# ----------------------------------------------------------------------------- sharing of NewArrayListOf's argument
+def sharing_check(c, hs, results):
+    """For the histories that start with NewArrayListOf(ts) the harness reports after every call whether the list still
+    lives in ts's array (pointer identity + two write-through probes).  The memory-level model predicts it: the list
+    stays in ts's array until the first call for which ListMemModel.reallocates (extracted; proved exact in
+    props/C04_mem.v, theorem arraylist_mem_step) holds of (len, cap) before the call.  Sharing is DOCUMENTED behaviour of
+    NewArrayListOf, not a violation of C04; a disagreement here means the memory model does not describe the code."""
+    lines, where = [], []
+    for hi, (h, r) in enumerate(zip(hs, results)):
+        if not h[2] or bare(h[2][0])[0] != "N":
+            continue
+        for k in range(1, len(h[2])):
+            prev = r["impl"][k - 1].split("|") if k - 1 < len(r["impl"]) else []
+            if k >= len(r["impl"]) or len(prev) < 2 or not prev[1].isdigit() or r["caps"][k - 1] == "-":
+                break
+            lines.append("%s %s %s" % (prev[1], r["caps"][k - 1], bare(h[2][k])))
+            where.append((hi, k))
+    n_s = n_u = n_bad = 0
+    if lines:
+        out = c.run_model("list-realloc", "\n".join(lines) + "\n")
+        realloc = {w: (out[j] == "1") for j, w in enumerate(where) if j < len(out)}
+        for hi, (h, r) in enumerate(zip(hs, results)):
+            if not h[2] or bare(h[2][0])[0] != "N":
+                continue
+            moved = False
+            for k in range(len(r["sh"])):
+                if k > 0:
+                    if (hi, k) not in realloc:
+                        break
+                    moved = moved or realloc[(hi, k)]
+                got = r["sh"][k]
+                if got == "-":
+                    continue
+                want = "U" if moved else "S"
+                n_s += got == "S"
+                n_u += got == "U"
+                if got != want:
+                    n_bad += 1
+                    c.report("C04:%s:%s:sharing-differs-from-memory-model" % (h[0], kind_of(h[2][k], h[0])),
+                             "NewArrayListOf(ts): after op #%d %r the list %s ts's array, the memory-level model says it %s"
+                             % (k, h[2][k], {"S": "still uses", "U": "no longer uses", "?": "inconsistently uses"}[got],
+                                "has left it" if moved else "still uses it"),
+                             {"kind": "memory-model-correspondence", "history": hist_line(h), "op_index": k,
+                              "sharing_observed": r["sh"][:k + 1], "caps": r["caps"][:k + 1]}, found_input=False)
+                    break
+    c.cov["newarraylistof_sharing"] = {"steps_shared": n_s, "steps_unshared": n_u, "disagree_with_memory_model": n_bad}
+
+
 # ----------------------------------------------------------------------------- main
 def nontrivial(h, impl):
     """a history is non-trivial when it has a failing call AND a successful structural change"""
     failed = any(e.startswith("e:") for e in impl)
-    changed = any(bare(o)[0] in "aidbn" and e.startswith(("ok", "v:")) for o, e in zip(h[2], impl))
+    changed = any(bare(o)[0] in "aidbnN" and e.startswith(("ok", "v:")) for o, e in zip(h[2], impl))
     return failed and changed
 
 
@@ -747,6 +822,7 @@ def main(tier):
                   "original_history_ops": len(h[2]),
                   "how": "echo '<history>' | <harness> c04 ; echo '<history>' | ocaml/modelrun list-spec   "
                          "(entry = result|Len|nil:AsSlice[|cap|fresh])"})
+    sharing_check(c, hs, results)
     crosscheck(c, hs, results)
     finish(c)
 
